@@ -203,9 +203,9 @@ theorem headOf_length (f : Fixed) (exts : List Ext) : (headOf f exts).length = 4
 
 /-- what a successful write tells: every extension readable, a 32-byte random (the header-length
 formula is exact), and exactly `4 + helloLen` bytes. -/
-theorem marshalCore_inv {f : Fixed} {exts : List Ext} {raw : Bytes} (h : marshalCore f exts = .ok raw) :
+theorem marshalWrite_inv {f : Fixed} {exts : List Ext} {raw : Bytes} (h : marshalWrite f exts = .ok raw) :
     (∀ e ∈ exts, readable e = true) ∧ (fixedBytes f).length = headerLen f ∧ raw.length = 4 + helloLenOf f exts := by
-  unfold marshalCore at h
+  unfold marshalWrite at h
   cases hb : marshalBody (helloLenOf f exts + 4) ((headOf f exts).length + 2) exts with
   | error x => rw [hb] at h; cases h
   | ok tail =>
@@ -248,9 +248,9 @@ theorem marshalCore_inv {f : Fixed} {exts : List Ext} {raw : Bytes} (h : marshal
             simp at hl'; omega
 
 /-- readable extensions and a 32-byte random always marshal. -/
-theorem marshalCore_ok {f : Fixed} {exts : List Ext} (hr : ∀ e ∈ exts, readable e = true)
-    (hf : (fixedBytes f).length = headerLen f) : ∃ raw, marshalCore f exts = .ok raw := by
-  unfold marshalCore marshalBody
+theorem marshalWrite_ok {f : Fixed} {exts : List Ext} (hr : ∀ e ∈ exts, readable e = true)
+    (hf : (fixedBytes f).length = headerLen f) : ∃ raw, marshalWrite f exts = .ok raw := by
+  unfold marshalWrite marshalBody
   by_cases hem : exts.isEmpty = true
   · rw [if_pos hem]
     simp only
@@ -269,6 +269,29 @@ theorem marshalCore_ok {f : Fixed} {exts : List Ext} (hr : ∀ e ∈ exts, reada
       simp only [List.length_append, headOf_length, u16_length]; omega
     rw [if_neg (by omega)]
     exact ⟨_, rfl⟩
+
+/-- the two length-field checks decide between "too long" and the write. -/
+theorem marshalCore_tooLong {f : Fixed} {exts : List Ext} (h : fits f exts = false) :
+    marshalCore f exts = .error .tooLong := by
+  unfold marshalCore; rw [h]; rfl
+
+theorem marshalCore_fits {f : Fixed} {exts : List Ext} (h : fits f exts = true) :
+    marshalCore f exts = marshalWrite f exts := by
+  unfold marshalCore; rw [h]; rfl
+
+theorem marshalCore_inv {f : Fixed} {exts : List Ext} {raw : Bytes} (h : marshalCore f exts = .ok raw) :
+    (∀ e ∈ exts, readable e = true) ∧ (fixedBytes f).length = headerLen f ∧ raw.length = 4 + helloLenOf f exts ∧
+    fits f exts = true := by
+  cases hf : fits f exts with
+  | false => rw [marshalCore_tooLong hf] at h; cases h
+  | true =>
+    rw [marshalCore_fits hf] at h
+    obtain ⟨a, b, c⟩ := marshalWrite_inv h
+    exact ⟨a, b, c, rfl⟩
+
+theorem marshalCore_ok {f : Fixed} {exts : List Ext} (hr : ∀ e ∈ exts, readable e = true)
+    (hf : (fixedBytes f).length = headerLen f) (hfit : fits f exts = true) : ∃ raw, marshalCore f exts = .ok raw := by
+  rw [marshalCore_fits hfit]; exact marshalWrite_ok hr hf
 
 theorem marshal_inv {pol : Policy} {f : Fixed} {exts e' : List Ext} {raw : Bytes}
     (h : marshal pol f exts = .ok (e', raw)) :
@@ -305,10 +328,12 @@ theorem updatePadding_readable (pol : Policy) (u : Nat) (e : Ext) (h : isPadding
     · cases h
     · exact h
 
-/-- at most one padding extension, everything else readable, 32-byte random ⇒ the marshal succeeds. -/
+/-- at most one padding extension, everything else readable, 32-byte random: the marshal succeeds iff
+the updated list fits the length fields, and reports "too long" otherwise. -/
 theorem marshal_ok {pol : Policy} {f : Fixed} {exts : List Ext}
     (hp : (exts.filter isPadding).length ≤ 1) (hr : ∀ e ∈ exts, isPadding e = true ∨ readable e = true)
-    (hf : (fixedBytes f).length = headerLen f) :
+    (hf : (fixedBytes f).length = headerLen f)
+    (hfit : fits f (exts.map (updatePadding pol (unpaddedLen f exts))) = true) :
     ∃ raw, marshal pol f exts = .ok (exts.map (updatePadding pol (unpaddedLen f exts)), raw) := by
   unfold marshal
   rw [if_neg (by omega)]
@@ -317,9 +342,19 @@ theorem marshal_ok {pol : Policy} {f : Fixed} {exts : List Ext}
     (by
       intro e he
       obtain ⟨a, ha, rfl⟩ := List.mem_map.mp he
-      exact updatePadding_readable pol _ a (hr a ha)) hf
+      exact updatePadding_readable pol _ a (hr a ha)) hf hfit
   rw [h]
   exact ⟨raw, rfl⟩
+
+theorem marshal_tooLong {pol : Policy} {f : Fixed} {exts : List Ext}
+    (hp : (exts.filter isPadding).length ≤ 1)
+    (hfit : fits f (exts.map (updatePadding pol (unpaddedLen f exts))) = false) :
+    marshal pol f exts = .error .tooLong := by
+  unfold marshal
+  rw [if_neg (by omega)]
+  simp only
+  rw [marshalCore_tooLong hfit]
+  rfl
 
 /-! ## list surgery of the uTLS section -/
 
@@ -501,14 +536,15 @@ theorem splitExts_readAll (total : Nat) : ∀ (exts : List Ext) (written : Nat) 
 exactly the non-extension fields it was built from and the `(type, body)` list of its extensions. -/
 theorem split_marshalCore {f : Fixed} {exts : List Ext} {raw : Bytes} (h : marshalCore f exts = .ok raw)
     (hw : wireWF f exts = true) : split raw = some ⟨f, !exts.isEmpty, wireExts exts⟩ := by
-  obtain ⟨_, hfix, hlen⟩ := marshalCore_inv h
+  obtain ⟨_, hfix, hlen, hfit⟩ := marshalCore_inv h
+  rw [marshalCore_fits hfit] at h
   unfold wireWF at hw
   simp only [Bool.and_eq_true, decide_eq_true_eq, List.all_eq_true] at hw
   obtain ⟨⟨⟨⟨⟨⟨⟨w1, w2⟩, w3⟩, w4⟩, w5⟩, w6⟩, w7⟩, w8⟩ := hw
   have hrand : f.random.length = 32 := by
     rw [fixedBytes_length] at hfix; unfold headerLen at hfix; omega
   -- the shape of `raw`
-  unfold marshalCore at h
+  unfold marshalWrite at h
   cases hb : marshalBody (helloLenOf f exts + 4) ((headOf f exts).length + 2) exts with
   | error x => rw [hb] at h; cases h
   | ok tail =>
